@@ -5,6 +5,7 @@ import (
 	"encoding/json"
 	"fmt"
 	"math"
+	"math/rand"
 	"sort"
 	"strconv"
 	"strings"
@@ -560,3 +561,29 @@ func sigSeq(xs []Val) string {
 	}
 	return s
 }
+
+// exported constructors (used by the C15 driver)
+func VNull() Val                  { return vNull() }
+func VBool(b bool) Val            { return vBool(b) }
+func VInt(i int64) Val            { return vInt(i) }
+func VReal(f float64) Val         { return vRealF(f) }
+func VName(b []byte) Val          { return vName(b) }
+func VStr(b []byte) Val           { return vStr(b) }
+func VArr(e ...Val) Val           { return vArr(e...) }
+func VDict(m map[string]Val) Val  { return vDict(m) }
+func Sig(x Val) string            { return sig(x) }
+func Ints(b []byte) []int         { return ints(b) }
+func Unints(v []int) []byte       { return unints(v) }
+
+// RandVal draws a random value (no references: they cannot occur in content streams).
+func RandVal(r *rand.Rand, depth, maxStr int) Val {
+	for {
+		v := randVal(r, depth, maxStr)
+		if !contains(v, "ref") {
+			return v
+		}
+	}
+}
+
+// RandBytes draws random bytes in one of several styles.
+func RandBytes(r *rand.Rand, n int) []byte { return randBytes(r, n) }
